@@ -471,6 +471,3 @@ pub fn replay(ctx: &Ctx, sub: &str, case: &Value) -> Result<(), String> {
     Ok(())
 }
 
-pub fn fuzz_strategy() -> impl Strategy<Value = Case> {
-    strategy(100)
-}
